@@ -308,8 +308,16 @@ func lenientArgCheck(d *primDoc, a []string) string {
 			for i, p := range parts {
 				p = strings.ReplaceAll(p, " ", "")
 				p = strings.TrimPrefix(p, "+")
-				if p == "" || len(p) > 18 {
+				if p == "" {
 					return "invalid-hash-section"
+				}
+				if z := strings.TrimLeft(p, "0"); z == "" {
+					p = "0"
+				} else {
+					p = z
+				}
+				if len(p) > 18 {
+					return "hash-bucket-out-of-range"
 				}
 				for _, c := range p {
 					if c < '0' || c > '9' {
